@@ -18,6 +18,13 @@ Streams
   E  shared objects and history: ONE CaptionSet object whose languages share their CaptionList / Caption / node objects
      (or one language), with >= 2 captions of equal (start, end), written by a merging writer first and then twice by all
      seven writers; every document of the history is judged like stream A (per language).
+  F  (wave 7) WebVTT captions whose nodes fall into 1-4 layout groups (node-level layout_info changes inside the caption: the
+     writer emits one cue per group): junction-formed metacharacter sequences ('-->' from 'up --' + '> down', '&amp;', '</i>',
+     timing-line and header look-alikes ...) at a text-node boundary (nothing or a style node between the two text nodes) in
+     the first / middle / last group (deterministic grid) + random captions; the Coq cue grammar must see one cue per group
+     with the lines of that group's nodes (ok_cues_strict); the document must equal the model's (model/TextWriteVtt.v, 305).
+  G  (wave 7) style dictionaries with a colour (quotes of both kinds, & < >, tab / LF / CR, entity look-alikes) through the
+     three DFXP writers: judged like A, payloads also through B (attribute values: Coq strict parser = lxml).
 Known findings are recognised by the FAILURE (the observed lines equal the authored ones with a blank after every SAMI
 text node / with U+00A0 for every empty WebVTT text node), never by the shape of the input.
 """
@@ -550,16 +557,192 @@ def run_histories(ctx, res, n):
     process_cases(ctx, res, cases)
 
 
+
+# ---- stream G (wave 7): style dictionaries with a colour - attribute values through quoteattr, three DFXP writers ----------
+COLOR_SYMS = ['"', "'", "<", "&", ">", "\t", "\n", "\r", " ", ";", "a", "\u00e9", "]", "#", "=", "/", "&amp;", "&quot;", "&#10;"]
+
+
+def run_colors(ctx, res, n):
+    """captions [span(colour) text /span] and spans inside a line; the colour is any string over quotes of both kinds, markup
+    characters, tab / LF / CR, entity look-alikes.  Judged like stream A (text lines through lxml strict + literal model tie);
+    the payloads go through stream B as well (Coq strict parser = lxml, attribute values included), so the theorems
+    C03_quoteattr_roundtrip / C03_dfxp_payload_parse_color are tied to the real writers on exactly these values."""
+    rng = ctx.rng
+    cases = []
+    for k in range(n):
+        specs = []
+        for _ in range(rng.randint(1, 3)):
+            col = "".join(rng.choice(COLOR_SYMS) for _ in range(rng.randint(0, 6)))
+            st = (rng.random() < 0.5, rng.random() < 0.2, False, col)
+            line = G.rand_line(rng, adversarial=0.6)
+            sp = [("s", True) + st, ("t", line), ("s", False) + st]
+            if rng.random() < 0.4:
+                sp = [("t", "pre ")] + sp + [("b",), ("t", G.rand_line(rng, adversarial=0.6))]
+            specs.append(sp)
+            res["distribution"]["G_colour_values"] = res["distribution"].get("G_colour_values", 0) + 1
+            if '"' in col and "'" in col:
+                res["distribution"]["G_colour_both_quotes"] = res["distribution"].get("G_colour_both_quotes", 0) + 1
+            if any(c in col for c in "\t\n\r"):
+                res["distribution"]["G_colour_tab_lf_cr"] = res["distribution"].get("G_colour_tab_lf_cr", 0) + 1
+        for (fmt, W, kind, mreq) in WRITERS[:3]:
+            cs = G.capset(specs)
+            out = impl.call(lambda: W().write(cs))
+            cases.append((fmt, kind, mreq, specs, out))
+    return process_cases(ctx, res, cases)
+
+
+# ---- stream F (wave 7): WebVTT captions written as several cues (layout groups), junction-formed metacharacter sequences --
+JUNCTIONS = [("up --", "> down"), ("x -", "-> y"), ("a --", ">"), ("-", "->"), ("--", ">"), ("a -", "-", "> c"), ("-", "-", ">"),
+             ("a &", "amp; b"), ("&", "lt;"), ("&", "gt;"), ("a &am", "p;"), ("&#", "60;"), ("&#x3", "C;"), ("&n", "bsp;"),
+             ("a <", "/i> b"), ("<", "i>"), ("</", "i>"), ("<", "b"), ("00:00:01.000 --", "> 00:00:02.000"), ("WEB", "VTT"),
+             ("NO", "TE x"), ("-->", "-->"), ("--", "->"), ("->", "-->x")]
+GROUP_SETTINGS = ["", " line:10%", " position:20% align:start", " line:80% size:50%", " align:end"]
+
+
+def _group_layouts():
+    from pycaption.geometry import Layout, Point, Size, UnitEnum
+    out = [None]
+    for k in range(1, len(GROUP_SETTINGS)):
+        out.append(Layout(origin=Point(Size(10 * k, UnitEnum.PERCENT), Size(5 * k, UnitEnum.PERCENT)),
+                          webvtt_positioning=GROUP_SETTINGS[k].strip()))
+    return out
+
+
+def rand_group(rng, lid, junction):
+    """nodes of one layout group, every node tagged with its layout id (a break: the group's or none).
+    junction = tuple of texts that are ADJACENT text nodes (nothing or a style node between them), or None"""
+    nodes = []
+    blid = lambda: lid if rng.random() < 0.7 else 0        # noqa: E731
+    if rng.random() < 0.4:
+        nodes += [(lid, ("t", G.rand_line(rng, adversarial=0.8) or "x")), (blid(), ("b",))]
+    if junction is None:
+        nodes.append((lid, ("t", (G.rand_line(rng, adversarial=0.8).strip() or "x"))))
+    else:
+        between = rng.choice(["none", "none", "style-open", "style-close", "style-plain"])
+        sty = ("s", True, True, False, False, None) if rng.random() < 0.6 else ("s", True, False, True, True, None)
+        end = ("s", False) + sty[2:]
+        if between == "style-close":
+            nodes.append((lid, sty))
+        for k, t in enumerate(junction):
+            if k:
+                if between == "style-open" and k == 1:
+                    nodes.append((lid, sty))
+                elif between == "style-close" and k == 1:
+                    nodes.append((lid, end))
+                elif between == "style-plain" and k == 1:
+                    nodes.append((lid, ("s", True, False, False, False, "red")))
+            nodes.append((lid, ("t", t)))
+        if between == "style-open":
+            nodes.append((lid, end))
+        elif between == "style-plain":
+            nodes.append((lid, ("s", False, False, False, False, "red")))
+    if rng.random() < 0.4:
+        nodes += [(blid(), ("b",)), (lid, ("t", G.rand_line(rng, adversarial=0.8).strip() or "y"))]
+    elif rng.random() < 0.2:
+        nodes += [(blid(), ("b",))]
+    return nodes
+
+
+def groups_doc(lcaps):
+    """write captions given as lists of groups (each a list of (layout id, node)) with the real WebVTTWriter"""
+    from pycaption import CaptionSet, CaptionList, Caption
+    lay = _group_layouts()
+    caps = []
+    for i, groups in enumerate(lcaps):
+        flat = [ln for g in groups for ln in g]
+        nodes = G.build_nodes([n for _, n in flat])
+        for node, (lid, _) in zip(nodes, flat):
+            node.layout_info = lay[lid]
+        st, en = G.times(i)
+        caps.append(Caption(st, en, nodes))
+    cs = CaptionSet({"en-US": CaptionList(caps)})
+    return impl.call(lambda: WebVTTWriter().write(cs))
+
+
+def judge_groups(lcaps, out):
+    """-> (violation dict or None, model document or None): one cue per layout group with the lines of its nodes"""
+    base = {"fmt": "WebVTT", "replay": "vtt-layout-groups", "shape": "layout-groups", "input": lcaps,
+            "document": out.v if isinstance(out, Ok) else None}
+    exp_nodes = [[n for _, n in g] for groups in lcaps for g in groups]
+    authored = oracle_batch([(321, G.wire_nodes(s)) for s in exp_nodes])
+    caps = [[G.vtt_timing(*G.times(i)), [[lid, G.wire_nodes([n])[0]] for g in groups for lid, n in g]] for i, groups in enumerate(lcaps)]
+    model = oracle_batch([(305, [list(GROUP_SETTINGS), caps])])[0]
+    if not isinstance(out, Ok):
+        return dict(base, kind="writer-raises", what="WebVTT writer raised on a caption with several layout groups"), model
+    r = oracle_batch([(311, out.v)])[0]
+    if r == []:
+        return dict(base, kind="unparseable-output", what="WebVTT output rejected by the reference grammar"), model
+    observed = r[0]
+    if len(observed) != len(authored):
+        return dict(base, kind="cue-count", authored=authored, observed=observed,
+                    what=f"WebVTT: {len(authored)} layout groups written, reference parser sees {len(observed)} cues"), model
+    oks = oracle_batch([(323, [[a], [o]]) for a, o in zip(authored, observed)])
+    for i, ok in enumerate(oks):
+        if ok != 1:
+            return dict(base, kind="cue-text", authored=authored[i], observed=observed[i], group=i,
+                        what=f"WebVTT: the cue of layout group {i} reads {observed[i]!r}, authored {authored[i]!r}"), model
+    return None, model
+
+
+def run_layout_groups(ctx, res, nrand):
+    rng = ctx.rng
+    sets = []
+    # deterministic grid: every junction in the first / middle / last group of a three-group caption and in both groups of two
+    for j, junction in enumerate(JUNCTIONS):
+        for pos in range(3):
+            lids = rng.sample(range(1, len(GROUP_SETTINGS)), 3)
+            sets.append([[rand_group(rng, lids[g], junction if g == pos else None) for g in range(3)]])
+        lids = rng.sample(range(1, len(GROUP_SETTINGS)), 2)
+        sets.append([[rand_group(rng, lids[0], junction), rand_group(rng, lids[1], JUNCTIONS[(j + 1) % len(JUNCTIONS)])]])
+    for _ in range(nrand):
+        lcaps = []
+        for _c in range(rng.randint(1, 3)):
+            k = rng.choice([1, 2, 2, 3, 3, 4])
+            lids = [rng.randint(1, len(GROUP_SETTINGS) - 1)]
+            while len(lids) < k:
+                x = rng.randint(1, len(GROUP_SETTINGS) - 1)
+                if x != lids[-1]:
+                    lids.append(x)
+            if k == 1 and rng.random() < 0.5:
+                lids = [0]
+            lcaps.append([rand_group(rng, lid, rng.choice(JUNCTIONS) if rng.random() < 0.6 else None) for lid in lids])
+        sets.append(lcaps)
+    d = res["distribution"]
+    for lcaps in sets:
+        out = groups_doc(lcaps)
+        v, model = judge_groups(lcaps, out)
+        ngroups = sum(len(g) for g in lcaps)
+        res["evaluations"] += ngroups
+        d["F_documents"] = d.get("F_documents", 0) + 1
+        d["F_layout_groups"] = d.get("F_layout_groups", 0) + ngroups
+        d["F_captions_with_%d_groups" % min(4, max(len(g) for g in lcaps))] = d.get("F_captions_with_%d_groups" % min(4, max(len(g) for g in lcaps)), 0) + 1
+        for groups in lcaps:
+            for g in groups:
+                res["nontrivial"].add(("WebVTT-group", tuple(n[1] for _, n in g if n[0] == "t"), len(groups)))
+        if v is not None:
+            res["violations"].append(v)
+        if isinstance(out, Ok) and isinstance(model, list) and len(model) == 2:
+            exact = model[0] == out.v
+            key = "F_model_exact_equal" if exact else "F_model_exact_differs"
+            d[key] = d.get(key, 0) + 1
+            if not exact and len(res["disagreements"]) < 50:
+                res["disagreements"].append({"fmt": "WebVTT", "what": "writer output (layout groups) differs literally from the model's",
+                                             "nodes": lcaps, "impl": out.v, "model": model[0]})
+
+
 def run(ctx):
     res = {"evaluations": 0, "nontrivial": set(), "violations": [], "disagreements": [], "distribution": {},
-           "streams": 4, "notes": []}
+           "streams": 6, "notes": []}
     records = run_sets(ctx, res, ctx.n(260, 6000))
     payloads = []
     for rec in records:
         payloads.extend(rec.get("payloads") or [])
+    for rec in run_colors(ctx, res, ctx.n(120, 4000)):
+        payloads.extend(rec.get("payloads") or [])
     run_xml_validation(ctx, res, payloads, ctx.n(1500, 40000))
     run_strings(ctx, res, ctx.n(4, 5), ctx.n(500, 20000))
     run_histories(ctx, res, ctx.n(60, 1500))
+    run_layout_groups(ctx, res, ctx.n(250, 8000))
     res["rule"] = ("A: caption sets of 1-4 captions x 7 writers (DFXP, legacy DFXP, single-positioning DFXP, SAMI, WebVTT, "
                    "SRT, MicroDVD); non-trivial = a caption with a metacharacter (& < > quotes | { } \\ / ; # -) or more "
                    "than one line, counted as distinct (writer, authored lines, node shape). B: <p> payloads and mutated "
@@ -574,6 +757,11 @@ def run(ctx):
                     "all visible characters and breaks in order for balanced flat spans (interior white space NOT covered)",
                     "WebVTT: cue-text reading (HTML character references) of encode(s) is s; the assembled cue text never "
                     "contains '-->' and has no empty line inside (all node lists); no document-level theorem",
+                    "wave 7: quoteattr - the strict parser reads the attribute value written for ANY string over XML Char back "
+                    "as that string (C03_quoteattr_roundtrip, _content_roundtrip); the DFXP payload theorems hold for style "
+                    "dictionaries with any colour (C03_*_payload_parse_color, _wellformed_color)",
+                    "wave 7: WebVTT captions written as several cues (layout groups): no cue text of any group contains "
+                    "'-->' (C03_vtt_groups_no_arrow); one layout = the single cue text (C03_vtt_groups_one_layout)",
                     "SRT: model document (merge of equally timed captions included) read by the block grammar satisfies "
                     "ok_cues_strict against the authored lines (C03_srt_doc_meets_oracle)",
                     "MicroDVD: model document read by the line grammar satisfies ok_cues_strict for texts without '|' "
@@ -582,7 +770,9 @@ def run(ctx):
                                 "html.parser", "the model's <p> payload / document equals the implementation's literally on "
                                 "every generated caption set (a difference is reported as a disagreement)",
                                 "authored lines survive with their interior white space for DFXP x3, SAMI, WebVTT (oracle on "
-                                "real output only)", "Coq XML content parser agrees with lxml on payloads and mutated payloads"]}
+                                "real output only)", "Coq XML content parser agrees with lxml on payloads and mutated payloads",
+                                "WebVTT layout groups: one cue per group with the lines of its nodes (oracle on real output, "
+                                "stream F) and the document equals the model's (request 305) - no theorem about the cue LINES"]}
     res["trusted_extra"] = ["observers: lxml.etree (strict, no recovery) for DFXP; html.parser for SAMI; "
                             "Coq reference grammars (spec/SpecTextVtt.v, SpecTextBlocks.v) for WebVTT/SRT/MicroDVD"]
     return res
@@ -597,6 +787,10 @@ def replay(ctx, rec):
         process_cases(ctx, r, history_cases(specs, spans, h["mode"], h["order"]))
         bad = [v for v in r["violations"] if v["kind"] not in ("blank-inserted-at-node-boundary", "nbsp-for-empty-text-node")]
         return bool(bad), [(v["fmt"], v["hist"]["step"], v["what"][:200]) for v in bad[:3]]
+    if rec.get("replay") == "vtt-layout-groups":
+        lcaps = [[[(int(l), tuple(n)) for l, n in g] for g in groups] for groups in rec["input"]]
+        v, _ = judge_groups(lcaps, groups_doc(lcaps))
+        return (v is not None), (v or {}).get("what")
     if rec.get("replay") == "write":
         specs = [[tuple(n) for n in s] for s in rec["input"]]
         spans = [tuple(x) for x in rec["spans"]] if rec.get("spans") else None
